@@ -45,6 +45,12 @@ def corpus():
         F4_WITNESS,
         F4B_WITNESS,
         F4C_WITNESS,
+        # fixed f0764c2: `*` + add_trait(List) hooked the `l2_items` companion trait for good
+        "obs|3|N,N,N|obs 0 0 any.1;addt 0 l2 0;get 0 l2 100;la 100 1;unobs 0 0 any.1;la 100 2",
+        "obs|3|N,N,N|addt 1 l2 1;obs 0 0 t.child.1.0 meta.1 then;set 0 child 1;addt 2 l2 2;set 0 child 2;"
+        "unobs 0 0 t.child.1.0 meta.1 then",
+        # known: ad-hoc attribute defined through another instance (implementation + oracle only)
+        "#obs|3|N,N,N|obs 0 0 any.1;obs 0 1 any.1;adhoc 0 1;adhoc 1 2;unobs 0 1 any.1;unobs 0 0 any.1",
         # handler key 10 + h: handler h through traits.observation.api.observe(dispatcher=queue.dispatch),
         # a new bound method at every call: register twice, unregister twice, once too many
         "obs|3|N,N,N|set 0 child 1;obs 10 0 t.child.1.0 t.value.1.0 then;obs 10 0 t.child.1.0 t.value.1.0 then;"
@@ -83,6 +89,7 @@ def generate(rng, tier):
         yield O.history_filt(rng)
     for _ in range(ngc):
         yield "#gc" + O.history_c09(rng, maxops=8, gc_case=True)
+    yield from O.adhoc_cases(rng, 12 if tier == "quick" else 200)
 
 
 def run_impl(case):
